@@ -195,6 +195,11 @@ def tst32(utc_seconds: float) -> int:
     return its_ms(utc_seconds) % (1 << 32)
 
 
+def utc_before_wrap(ms_before: int, wrap_n: int = 150) -> float:
+    """UTC instant `ms_before` milliseconds before the wrap_n-th wrap of the 32-bit ITS millisecond timestamp (the 150th is in 2024)."""
+    return ITS_EPOCH - LEAP + (wrap_n * (1 << 32) - ms_before) / 1000.0
+
+
 class SleepWorld:
     """Real threads whose time.sleep() parks them on the virtual clock (deterministic discrete-event
     execution): the driver advances time to the earliest wake-up only when every live worker thread is
